@@ -184,12 +184,13 @@ theorem dstep_fan_none_guard {s : St} {l : Fan.Label} {f' : Fan.St} (hf : Fan.st
   | true => have := dstep_fan_some hf hg; rw [hn] at this; cases this
 
 theorem fanLocal_cases {fl : Fan.Label} {k : Nat} {lo : Local} (h : fanLocal fl = some (k, lo)) :
-    lo = .create ∨ lo = .connBegin ∨ lo = .connEnd := by
+    lo = .create ∨ lo = .connBegin ∨ lo = .connEnd ∨ lo = .destEnd := by
   cases fl with
   | d a => cases a <;> simp [fanLocal] at h; exact Or.inl h.2.symm
   | w i a => cases a <;> simp [fanLocal] at h
              · exact Or.inr (Or.inl h.2.symm)
-             · exact Or.inr (Or.inr h.2.symm)
+             · exact Or.inr (Or.inr (Or.inl h.2.symm))
+             · exact Or.inr (Or.inr (Or.inr h.2.symm))
 
 /-- a healthy target stays healthy, whatever step the system takes -/
 theorem hh_step {s s' : St} {l : Label} (hi : TInv s) (h : step s l = some s') {j d : Nat} (hj : j < s.hs.length)
@@ -293,7 +294,7 @@ theorem hh_step {s s' : St} {l : Label} (hi : TInv s) (h : step s l = some s') {
       by_cases hkj : k = j
       · subst hkj
         simp only [if_true]
-        rcases fanLocal_cases hfl with rfl | rfl | rfl
+        rcases fanLocal_cases hfl with rfl | rfl | rfl | rfl
         · simp only [hostStep]
           exact { intr := hh.intr, connNow := by simp, out := hh.out, err := hh.err, errC := hh.errC,
                   outHead := by simp, errHead := by simp, opn := by simp, fin := by simp }
@@ -302,6 +303,9 @@ theorem hh_step {s s' : St} {l : Label} (hi : TInv s) (h : step s l = some s') {
                   errC := hh.errC, outHead := by simp, errHead := by simp, opn := by simp, fin := by simp }
         · simp only [hostStep, hh.intr, Bool.false_eq_true, if_false, hconn]
           exact hh_pollRound rfl rfl hh.out hh.err hh.errC
+        · simp only [hostStep, hh.intr, Bool.false_eq_true, false_and, if_false]
+          exact { intr := rfl, connNow := hh.connNow, out := hh.out, err := hh.err, errC := hh.errC,
+                  outHead := hh.outHead, errHead := hh.errHead, opn := hh.opn, fin := hh.fin }
       · simp only [hkj, if_false, hostStep_other]; exact hh
 
 /-- a healthy target is healthy in every reachable state -/
